@@ -114,6 +114,8 @@ impl ReadSource for SizedSource {
     }
 }
 
+pub const MAX_READ_BACK_DEPTH: usize = 200;
+
 /// canonical digest of everything below `tree` as read through `ls` + `dump`
 pub fn tree_digest<S: IndexedFull>(repo: &Repository<S>, tree: rustic_core::TreeId) -> Result<String, String> {
     use std::os::unix::ffi::OsStrExt;
@@ -123,6 +125,12 @@ pub fn tree_digest<S: IndexedFull>(repo: &Repository<S>, tree: rustic_core::Tree
     let it = repo.ls(&root, &LsOptions::default()).map_err(|e| crate::util::errkind(&e))?;
     for item in it {
         let (path, node) = item.map_err(|e| crate::util::errkind(&e))?;
+        // The node streamer of ls / restore has no visited set: when damage makes a tree id yield the content of one of its
+        // ancestors (the pack of a child tree overwritten by the same-layout pack of its parent) it descends for ever.  No
+        // generated source is deeper than a dozen levels: such a snapshot does not read back.
+        if path.components().count() > MAX_READ_BACK_DEPTH {
+            return Err("tree-cycle".to_string());
+        }
         h.update(path.as_os_str().as_bytes());
         h.update([0]);
         match &node.node_type {
@@ -521,8 +529,11 @@ pub fn exec(toks: &[&str]) -> String {
         return format!("oracle-fail:hang:not-run-after-3-hung-cases:{class}");
     }
     let (tx, rx) = std::sync::mpsc::channel::<String>();
+    // 1 = in `check`, 2 = in the read-back (which starts only after a CLEAN check)
+    let phase = std::sync::Arc::new(std::sync::atomic::AtomicU8::new(0));
+    let phase2 = phase.clone();
     let spawned = std::thread::Builder::new().name("c05-case".into()).stack_size(16 << 20).spawn(move || {
-        _ = tx.send(exec_case(abs, key, store, expected));
+        _ = tx.send(exec_case(abs, key, store, expected, &phase2));
     });
     if spawned.is_err() {
         return "panic:cannot-spawn-case-thread".into();
@@ -531,14 +542,19 @@ pub fn exec(toks: &[&str]) -> String {
         Ok(out) => out,
         Err(std::sync::mpsc::RecvTimeoutError::Timeout) => {
             _ = HUNG_CASES.fetch_add(1, std::sync::atomic::Ordering::SeqCst);
-            return format!("oracle-fail:hang:{class}");
+            return if phase.load(std::sync::atomic::Ordering::SeqCst) == 2 {
+                // check came back clean and reading the snapshots back does not end: silent damage
+                format!("oracle-fail:silent:{class}:read-back-never-ends")
+            } else {
+                format!("oracle-fail:hang:check:{class}")
+            };
         }
         Err(std::sync::mpsc::RecvTimeoutError::Disconnected) => "panic:case-thread-died".to_string(),
     };
     if out == "oracle-fail:silent" { format!("oracle-fail:silent:{class}") } else { out }
 }
 
-fn exec_case(abs: Vec<String>, key: MasterKey, store: Store, expected: BTreeMap<String, String>) -> String {
+fn exec_case(abs: Vec<String>, key: MasterKey, store: Store, expected: BTreeMap<String, String>, phase: &std::sync::atomic::AtomicU8) -> String {
     crate::util::guarded(move || {
         let h = RepoHandle { be: MemBackend::from_store(store.clone()), hot: None, key: key.clone() };
         // op lines from before the metadata fields (corpus): file-node tokens have 4 fields
@@ -546,12 +562,18 @@ fn exec_case(abs: Vec<String>, key: MasterKey, store: Store, expected: BTreeMap<
         if abstract_state_with(&key, &store, !old_form) != abs {
             return "oracle-fail:abstraction-mismatch".to_string();
         }
+        phase.store(1, std::sync::atomic::Ordering::SeqCst);
         let raw = real_check(&h);
         let errs = match &raw {
             Ok(e) => canon_errs(e.clone()),
             Err(_) => "cmd-err".to_string(),
         };
-        let ok = real_restore_listed_ok(&h, &expected);
+        // The read-back verdict matters only when check is clean (see below), and only then is it computed: on a repository
+        // that check reports as damaged the readers need not even terminate (a tree id that yields the content of its own
+        // parent sends `ls` / restore, which keep no visited set, down an endless path — this, not the seeded change, is what
+        // made the first run on seed C05-7 hang for 900 s: the read-back used to run unconditionally).
+        phase.store(2, std::sync::atomic::Ordering::SeqCst);
+        let ok = errs != "none" || real_restore_listed_ok(&h, &expected);
         if errs == "none" && !ok {
             return "oracle-fail:silent".to_string();
         }
@@ -939,6 +961,46 @@ pub fn build_pruned(rng: &mut Rng, stats: &mut Stats) -> Option<Built> {
     Some(Built { h, expected })
 }
 
+/// A CHAIN of single-tree packs of identical layout in which each tree is the parent of the previous one, every link being
+/// the root of a kept snapshot: backup k stores the root tree `{node → subtree: root of backup k-1}` (the node is handed to the
+/// archiver with its subtree, as in `build_file_subtree`; compression off, so the tree packs of all links but the first have the
+/// same size).  Exchanging (or replacing) the packs of a parent and its child makes the child's id yield the parent's content —
+/// a tree that seemingly contains itself: a reader without a visited set (`ls`, restore; `TreeStreamerOnce` has one) never comes
+/// back from the child's snapshot.
+pub fn build_tree_chain(rng: &mut Rng, stats: &mut Stats) -> Option<Built> {
+    let mut cfg = ConfigOptions::default();
+    let v1 = rng.chance(1, 2);
+    stats.hit(if v1 { "cfg.v1" } else { "cfg.v2" });
+    if !v1 {
+        cfg.set_compression = Some(0);
+    }
+    let h = init_repo(&cfg, v1)?;
+    let clen = 7 + rng.below(50) as usize;
+    let content = rng.bytes(clen);
+    let links = 3 + rng.below(2) as i64;
+    let repo = open_nc(&h).ok()?.to_indexed_ids().ok()?;
+    let s0 = SingleFileSource { name: "node".into(), content: content.clone(), mtime_s: 1_600_000_000 };
+    let mut prev = repo.archive(&BackupOptions::default(), &s0, SnapshotFile::default(), &[PathBuf::from("node")]).ok()?;
+    for k in 1..links {
+        let repo = open_nc(&h).ok()?.to_indexed_ids().ok()?;
+        let s = FileWithSubtreeSource { name: "node".into(), content: content.clone(), mtime_s: 1_600_000_000 + k, subtree: prev.tree };
+        // no parent: the node must be stored as handed over
+        let bo = BackupOptions::default().parent_opts(rustic_core::ParentOptions::default().force(true));
+        prev = repo.archive(&bo, &s, SnapshotFile::default(), &[PathBuf::from("node")]).ok()?;
+    }
+    // how many tree packs share their size with another one?
+    let packs = index_packs(&h.key, &h.be.store());
+    let sizes: Vec<u32> = packs.iter().filter(|p| p.blob_type() == BlobType::Tree).map(|p| p.blobs.iter().map(|b| b.location.length).sum()).collect();
+    let same = sizes.iter().enumerate().filter(|(i, a)| sizes.iter().enumerate().any(|(j, b)| j != *i && b == *a)).count();
+    stats.hit(format!("repo.tree-chain.same-size-tree-packs.{}", Stats::bucket(same)));
+    stats.hit("repo.tree-chain(parent-child-packs-of-equal-layout)");
+    let expected = all_digests(&h).ok()?;
+    if expected.len() != links as usize {
+        return None;
+    }
+    Some(Built { h, expected })
+}
+
 fn zoned_utc(secs: i64) -> rustic_core::jiff::Zoned {
     rustic_core::jiff::Timestamp::from_second(secs).unwrap().to_zoned(rustic_core::jiff::tz::TimeZone::UTC)
 }
@@ -1262,13 +1324,13 @@ pub fn line(label: &str, key: &MasterKey, store: &Store, expected: &BTreeMap<Str
 }
 
 pub fn generate(thorough: bool, rng: &mut Rng, ops: &mut Vec<String>, stats: &mut Stats) {
-    let n_repos = if thorough { 60 } else { 10 };
+    let n_repos = if thorough { 60 } else { 11 };
     let per_repo_cap = if thorough { 300 } else { 110 };
     let mut late: Vec<String> = Vec::new();
     for r in 0..n_repos {
-        // repository kinds by position (quick = one round of 10, thorough = 6 rounds): the first repository of every run is the
+        // repository kinds by position (quick = the first 11 of a round of 12, thorough = 5 rounds): the first repository of every run is the
         // stdin-style pair (packs holding only a root tree); the kinds that need a history come early
-        let built = match r % 10 {
+        let built = match r % 12 {
             0 if r == 0 => build_stdin_pair(stats, rng.chance(1, 2)),
             // backup, backup, forget the first, no prune: packs holding used next to unused blobs
             1 => build_partly_used(rng, stats),
@@ -1284,6 +1346,8 @@ pub fn generate(thorough: bool, rng: &mut Rng, ops: &mut Vec<String>, stats: &mu
             6 | 9 => build_pruned(rng, stats),
             // files whose recorded size is not the length of their content
             7 => build_size_mismatch(rng, stats),
+            // a chain of directory trees of identical layout shared by two snapshots (parent/child tree packs of equal size)
+            10 => build_tree_chain(rng, stats),
             // 1–3 backups of small trees or stdin-style single files (repository 8: stdin-style only)
             _ => build_repo(rng, stats, r == 8),
         };
